@@ -14,15 +14,29 @@ WF = "0 <= n and n <= 255 and 0 <= c and c <= 255 and 0 <= k and k <= 4 and (a =
 INTS = {"n": TInt, "c": TInt, "k": TInt, "a": TInt, "t": TInt}
 
 
-def to_mqtt_contract():
-    """_parse_message_to_mqtt(line) for line = enc(m): topic, payload and qos as the property states."""
-    params = {"self": TR, "decoded_message": TStr}
+HARNESS = {
+    "mqtt_topic_of": "def mqtt_topic_of(transport, n, c, k, a, t, p):\n    return transport._parse_message_to_mqtt(f'{n};{c};{k};{a};{t};{p}\\n')\n",
+    "mqtt_line_of": "def mqtt_line_of(prefix, n, c, k, a, t, payload):\n    return MQTTTransport._parse_mqtt_to_message(f'{prefix}/{n}/{c}/{k}/{a}/{t}', payload)\n",
+    "mqtt_write": "async def mqtt_write(transport, n, c, k, a, t, p):\n    await transport.write(f'{n};{c};{k};{a};{t};{p}\\n')\n",
+    "mqtt_echo": ("def mqtt_echo(transport, n, c, k, a, t, p):\n"
+                  "    sent = transport._parse_message_to_mqtt(f'{n};{c};{k};{a};{t};{p}\\n')\n"
+                  "    return MQTTTransport._parse_mqtt_to_message(f'{transport.in_prefix}/{n}/{c}/{k}/{a}/{t}', sent[1])\n"),
+}
+
+
+def msg_params(first):
+    params = dict(first)
     params.update(INTS)
+    return params
+
+
+def to_mqtt_contract():
+    """_parse_message_to_mqtt(enc(m)): topic, payload and qos as the property states."""
+    params = msg_params({"transport": CL})
     params["p"] = TStr
-    return Contract(MT + "_parse_message_to_mqtt", params=params,
-                    requires=[H("line-is-an-encoded-message", "decoded_message == line(n, c, k, a, t, p)"), H("wf-fields", WF),
-                              H("clean-payload", "rstrip(p) == p")],
-                    ensures=[P("C18/write-topic", f"result[0] == self.out_prefix + '/' + {SUFFIX}"),
+    return Contract("harness.mqtt_topic_of", params=params,
+                    requires=[H("wf-fields", WF), H("clean-payload", "rstrip(p) == p")],
+                    ensures=[P("C18/write-topic", f"result[0] == transport.out_prefix + '/' + {SUFFIX}"),
                              P("C18/write-payload", "result[1] == p"),
                              P("C18/write-qos", "result[2] == a"),
                              CANARY("C18/canary-empty-topic", "result[0] == ''")],
@@ -30,25 +44,31 @@ def to_mqtt_contract():
 
 
 def to_line_contract():
-    params = {"topic": TStr, "payload": TStr, "prefix": TStr}
-    params.update(INTS)
-    return Contract(MT + "_parse_mqtt_to_message", params=params,
-                    requires=[H("topic-under-prefix", f"topic == prefix + '/' + {SUFFIX}")],
+    params = msg_params({"prefix": TStr})
+    params["payload"] = TStr
+    return Contract("harness.mqtt_line_of", params=params,
                     ensures=[P("C18/read-line", "result == dec(n) + ';' + dec(c) + ';' + dec(k) + ';' + dec(a) + ';' + dec(t) + ';' + payload"),
                              CANARY("C18/canary-line-is-payload", "result == payload")],
                     raises={}, check_wf=False, returns=TStr)
 
 
-def write_contract():
-    params = {"self": CL, "decoded_message": TStr}
-    params.update(INTS)
+def echo_contract():
+    params = msg_params({"transport": CL})
     params["p"] = TStr
-    return Contract(MT + "write", params=params,
-                    requires=[H("line-is-an-encoded-message", "decoded_message == line(n, c, k, a, t, p)"), H("wf-fields", WF),
-                              H("clean-payload", "rstrip(p) == p"), H("connected", "not (self._client is None)")],
+    return Contract("harness.mqtt_echo", params=params,
+                    requires=[H("wf-fields", WF), H("clean-payload", "rstrip(p) == p")],
+                    ensures=[P("C18/echo-roundtrip", "result + '\\n' == line(n, c, k, a, t, p)")],
+                    raises={}, check_wf=False, returns=TStr)
+
+
+def write_contract():
+    params = msg_params({"transport": CL})
+    params["p"] = TStr
+    return Contract("harness.mqtt_write", params=params,
+                    requires=[H("wf-fields", WF), H("clean-payload", "rstrip(p) == p"), H("connected", "not (transport._client is None)")],
                     modifies=PG,
                     ensures=[P("C18/publishes-once", "g('ghost.plen') == old(g('ghost.plen')) + 1"),
-                             P("C18/write-topic", f"g('ghost.ptopic', old(g('ghost.plen'))) == self.out_prefix + '/' + {SUFFIX}"),
+                             P("C18/write-topic", f"g('ghost.ptopic', old(g('ghost.plen'))) == transport.out_prefix + '/' + {SUFFIX}"),
                              P("C18/write-payload", "g('ghost.ppayload', old(g('ghost.plen'))) == p"),
                              P("C18/write-qos", "g('ghost.pqos', old(g('ghost.plen'))) == a")],
                     raises={"TransportError": [P("C18/failed-publish-not-counted", "g('ghost.plen') == old(g('ghost.plen'))")]}, check_wf=False)
@@ -79,7 +99,8 @@ def handle_incoming_contract():
                   requires=[H("connected", "not (self._client is None)")],
                   modifies=QG,
                   ensures=[P("C18/receive-task-never-silent", "g('ghost.qlen') == old(g('ghost.qlen')) + 1 and "
-                                                              "g('ghost.qat', old(g('ghost.qlen'))).message_type == 0")],
+                                                              "g('ghost.qat', old(g('ghost.qlen'))).message_type == 0 and "
+                                                              "is_transport_error(g('ghost.qat', old(g('ghost.qlen'))).error)")],
                   raises={"CancelledError": [H("C18/cancelled", "True")]}, check_wf=False)
     ct.raises_only_id = "C18/receive-task-never-silent"
     return ct
@@ -96,7 +117,8 @@ def read_contract():
     ct = Contract(MT + "read", params={"self": CL},
                   requires=[H("queued-messages-are-well-formed",
                               "implies(g('ghost.qat', g('ghost.qhead')).message_type == 1, not (g('ghost.qat', g('ghost.qhead')).message is None)) and "
-                              "implies(g('ghost.qat', g('ghost.qhead')).message_type == 0, not (g('ghost.qat', g('ghost.qhead')).error is None))")],
+                              "implies(g('ghost.qat', g('ghost.qhead')).message_type == 0, not (g('ghost.qat', g('ghost.qhead')).error is None) and "
+                              "is_transport_error(g('ghost.qat', g('ghost.qhead')).error))")],
                   modifies=QG, returns=TStr,
                   ensures=[P("C18/fifo-once", "g('ghost.qhead') == old(g('ghost.qhead')) + 1 and g('ghost.qlen') == old(g('ghost.qlen')) and "
                                               "old(g('ghost.qat', g('ghost.qhead')).message_type == 1) and result == old(g('ghost.qat', g('ghost.qhead')).message)")],
@@ -108,10 +130,15 @@ def read_contract():
 
 def units(world):
     out = []
-    add = lambda name, ct: out.append((ct.qualname + name, ct.qualname, ct, None, ()))  # noqa: E731
-    add("", to_mqtt_contract())
-    add("", to_line_contract())
-    add("", write_contract())
+    def add(name, ct):
+        if ct.raises_only_id == "C03/raises-only":
+            ct.raises_only_id = "C18+C03/raises-only"
+        out.append((ct.qualname + name, ct.qualname, ct, None, ()))
+    for hname, ctf in (("mqtt_topic_of", to_mqtt_contract), ("mqtt_line_of", to_line_contract), ("mqtt_write", write_contract), ("mqtt_echo", echo_contract)):
+        world.make_harness(hname, HARNESS[hname], module="aiomysensors.transport.mqtt")
+        ct = ctf()
+        ct.raises_only_id = "C18+C03/raises-only"
+        add("", ct)
     add("", connect_contract())
     add("", disconnect_contract())
     add("", handle_incoming_contract())
